@@ -107,7 +107,11 @@ func convRefRender(c *convRefCase) string {
 }
 
 // convRefFamily runs the family and reports under the calling property (C06).
-func convRefFamily(c *core.Ctx) {
+func convRefFamily(c *core.Ctx) { convRefRun(c, false) }
+
+// convRefRun: with acceptOnly (C03) only the acceptance of the well-formed placements and the presence
+// of both functions is judged - what the call looks like is C06's business.
+func convRefRun(c *core.Ctx, acceptOnly bool) {
 	early := core.RunTLC(c.Scratch, core.TLCRun{Module: "ConvRef", Config: "MCConvRefEarly.cfg", Workers: 2})
 	if early.OK || !strings.Contains(early.Violated, "PlacementFree") {
 		core.Machinery("vacuity check failed: SpecEarly should violate PlacementFree (%v %q)", early.OK, early.Violated)
@@ -149,11 +153,12 @@ func convRefFamily(c *core.Ctx) {
 		switch {
 		case r.TimedOut || r.Crashed():
 			problem = "the tool crashed or hung: " + firstLine(r.Stderr)
+		case x.Result.Reject && r.Exit == 0 && acceptOnly:
 		case x.Result.Reject && r.Exit == 0:
 			problem = "a function that cannot serve as converter (not return style without receiver, or error into an error-less method) was accepted"
 		case x.Result.Reject:
 		case r.Exit != 0:
-			problem = fmt.Sprintf("rejected (exit %d): %s", r.Exit, firstLine(r.Stderr))
+			problem = fmt.Sprintf("a well-formed setup file was rejected (exit %d): %s", r.Exit, firstLine(r.Stderr))
 		default:
 			b, err := os.ReadFile(filepath.Join(root, fmt.Sprintf("r%04d", i), "setup.gen.go"))
 			if err != nil {
@@ -169,6 +174,9 @@ func convRefFamily(c *core.Ctx) {
 			fn := f.Func("Caller")
 			if fn == nil || f.Func("Ref") == nil {
 				problem = "function Caller or Ref missing in the output"
+				break
+			}
+			if acceptOnly {
 				break
 			}
 			found := false
